@@ -11,9 +11,10 @@
    variables: nothing is assumed about them (no injectivity of [sha]).  For extraction and T2
    they are instantiated with [toy_sha] and a finite table [meta_of_table] (trusted base).
 
-   The model reproduces what the code DOES, including: no HTTP status check and no digest
-   check on a fresh transfer; removal of a fresh file only on MetadataError (not on other
-   exception classes); a stream that breaks leaves the partial file under the final name. *)
+   The model reproduces what the code DOES, including: an error status fails the transfer
+   before anything is written; NO digest check on a fresh transfer; a fresh file is removed
+   again on every failure of extract_metadata; a stream that breaks leaves the partial file
+   under the final name. *)
 From Coq Require Import List String Ascii NArith Bool Arith.
 From RC Require Import lib.PyStr model.CliTypesC15 gen.C15Consts.
 Import ListNotations.
@@ -109,14 +110,22 @@ Section Cache.
 Variable sha : bytes -> string.
 Variable meta : fname -> bytes -> mres.
 
-(* pypi.py:219-228: no status check, no digest check *)
+(* requests.Response.raise_for_status *)
+Definition raises_for_status (st : N) : bool := N.leb 400 st && N.ltb st 600.
+
+(* pypi.py:219-230: response.raise_for_status() before anything is written (an error answer is
+   not the file); no digest check on the fresh transfer *)
 Definition transfer (w : world) (fn : fname) (resource : string) : world * dres :=
   let log' := resource :: wlog w in
   match wscript w with
   | [] => (mkW (wdir w) [] log', DExn ConnectionError)
   | RFail :: s => (mkW (wdir w) s log', DExn ConnectionError)
-  | RBody _ b :: s => (mkW (write (wdir w) fn b) s log', DOk false)
-  | RBreak _ b :: s => (mkW (write (wdir w) fn b) s log', DExn ChunkedEncodingError)
+  | RBody st b :: s =>
+      if raises_for_status st then (mkW (wdir w) s log', DExn HTTPError)
+      else (mkW (write (wdir w) fn b) s log', DOk false)
+  | RBreak st b :: s =>
+      if raises_for_status st then (mkW (wdir w) s log', DExn HTTPError)
+      else (mkW (write (wdir w) fn b) s log', DExn ChunkedEncodingError)
   end.
 
 (* pypi.py:194-217 *)
@@ -144,7 +153,8 @@ Definition resolve (w : world) (c : cand) : world * rres :=
               | MReadable => (w1, ROk cached)
               | MMetaErr =>
                   ((if cached then w1 else set_dir w1 (remove (wdir w1) fn)), RExn MetadataError)
-              | MOther => (w1, RExn OtherError)
+              | MOther =>
+                  ((if cached then w1 else set_dir w1 (remove (wdir w1) fn)), RExn OtherError)
               end
           end
       end
@@ -194,9 +204,6 @@ Inductive pres :=
 Definition is_5xx (st : N) : bool :=
   (if page_retry_lo_incl then N.leb page_retry_lo st else N.ltb page_retry_lo st) &&
   (if page_retry_hi_incl then N.leb st page_retry_hi else N.ltb st page_retry_hi).
-(* requests.Response.raise_for_status *)
-Definition raises_for_status (st : N) : bool := N.leb 400 st && N.ltb st 600.
-
 (* returns the result and the number of requests made *)
 Fixpoint scan_page (retries : nat) (script : list presp) (made : nat) {struct script} : pres * nat :=
   match script with
